@@ -197,6 +197,9 @@ def add_consumer_side(b, rng, fe, n_int, focus='c03', lp_prob=0.1, transparent=F
                 b.rx(tf + rng.choice([1, 2, 1000, life * 1000]), pid)
                 b.faults += 1
         elif fate == 'nack':
+            if not cbp and rng.random() < 0.2:
+                # Interest carrying an implicit digest (of a Data that never arrives); the Nack names it in full
+                rec['digest_of'] = b.pkt({'k': 'data', 'name': list(name), 'content': 70 + b.next_pid, 'sig': 'digest'})
             ipid = b.pkt({'k': 'interest', 'name': name, 'cbp': cbp, 'lifetime': life * 1000 // 1000,
                           'nonce': 1000 + iid, 'digest_of': None})
             reason = rng.choice(nack_reasons or [0, 50, 100, 150, 151])
@@ -430,7 +433,7 @@ def rand_mutation(rng):
 
 RAW_JUNK = [
     '',                       # nothing (UDP: empty datagram)
-    '64', '6400', '640150', '6402500', '64025000', '6403500105', '64035001fd',
+    '64', '6400', '640150', '64025000', '6403500105', '64035001fd',
     '640362010a',             # LpPacket with only a PIT token
     '6405fd03200000',         # LpPacket with only a Nack header
     '6409fd032005fd03210132',   # Nack(reason 50) without fragment
